@@ -105,11 +105,15 @@ pub fn check_prime_field(ck: &mut Ck, c: &PrimeC) -> FieldFacts {
     let g_ok = canon(&c.generator);
     let g = mont_decode(&c.generator, &p);
     ck.ob(F_GEN, "GENERATOR/canonical", g_ok && !g.is_zero(), || json!({"raw": hx(&c.generator)}));
-    ck.ob(F_GEN, "GENERATOR/quadratic-non-residue", legendre(&g, &p) == -1, || json!({"modulus": hexu(&p), "generator": hexu(&g)}));
-    {
-        // "an element having multiplicative order MODULUS - 1": refutable through every small prime factor of p-1
+    let qnr = ck.ob(F_GEN, "GENERATOR/quadratic-non-residue", legendre(&g, &p) == -1, || json!({"modulus": hexu(&p), "generator": hexu(&g)}));
+    if !qnr {
+        // consequences of the same constant (order of g, of g^t and of get_root_of_unity) are not reported separately
+        ck.rep.class("field: obligations on the order of GENERATOR and of the 2-adic root skipped because GENERATOR is a square");
+    }
+    if qnr {
+        // "an element having multiplicative order MODULUS - 1": refutable through every small odd prime factor of p-1
         let (fs, _rest) = small_factors(pm1.clone(), 4096);
-        let bad: Vec<u64> = fs.iter().copied().filter(|q| g.modpow(&(&pm1 / u(*q)), &p).is_one()).collect();
+        let bad: Vec<u64> = fs.iter().copied().filter(|q| *q != 2 && g.modpow(&(&pm1 / u(*q)), &p).is_one()).collect();
         ck.ob(F_GEN, "GENERATOR/order-divisible-by-small-prime-powers-of-p-1", bad.is_empty(), || {
             json!({"modulus": hexu(&p), "generator": hexu(&g), "g^((p-1)/q) == 1 for q in": bad})
         });
@@ -119,7 +123,7 @@ pub fn check_prime_field(ck: &mut Ck, c: &PrimeC) -> FieldFacts {
     ck.ob(F_GEN, "TWO_ADIC_ROOT_OF_UNITY/equals-generator^trace", w == g.modpow(&t, &p), || {
         json!({"modulus": hexu(&p), "generator": hexu(&g), "expected": hexu(&g.modpow(&t, &p)), "got": hexu(&w)})
     });
-    {
+    if qnr {
         let full = w.modpow(&pow2(s as usize), &p).is_one();
         let half = w.modpow(&pow2(s as usize - 1), &p);
         ck.ob(F_GEN, "TWO_ADIC_ROOT_OF_UNITY/order-exactly-2^s", full && half == pm1, || {
@@ -164,7 +168,7 @@ pub fn check_prime_field(ck: &mut Ck, c: &PrimeC) -> FieldFacts {
     }
 
     // --- get_root_of_unity(n): Some(element of order exactly n) for every n = 2^i b^j, None otherwise
-    {
+    if qnr {
         let (b, k) = sub.unwrap_or((1, 0));
         let mut primes: Vec<UInt> = vec![u(2)];
         if b > 1 {
